@@ -21,6 +21,18 @@ FLOORS = (5000, 300)
 F100 = ("%f*100.0", "%f/100.0")
 FV = ("%f/28.316846592", "%f*28.316846592")
 
+NAN = float("nan")
+
+
+def nn(x):
+    """NaN compares unequal to itself: name it."""
+    if isinstance(x, float) and x != x:
+        return "nan"
+    if isinstance(x, (list, tuple)):
+        return type(x)(nn(y) for y in x)
+    return x
+
+
 ALPHABET = [
     ("AddUnitBase", ("length", "metres", "m"), {}),
     ("AddUnit", ("length", "centimetres", "cm") + F100, {}),
@@ -51,6 +63,12 @@ ALPHABET = [
     ("AddCategory", ("volume", "length"), {}),  # a category named like another quantity type
     ("AddCategory", ("length", "volume"), {"override": True}),
     ("AddCategory", ("lim2",), {"from_category": "lim", "valid_units": ["cm"]}),
+    # a default that is not a number is inside no limit: legal only while the category has none
+    ("AddCategory", ("lim2", "length"), {"default_value": NAN, "override": True}),
+    ("AddCategory", ("lim3",), {"from_category": "lim2", "min_value": 0.0}),
+    # a symbol that happens to be a legacy spelling of another symbol is a legal symbol: the unit registered under it is
+    # a unit of its own, with its own factors, whether or not the current spelling ('Mcf') is registered too
+    ("AddUnit", ("volume", "thousand cubic feet (old symbol)", "1000ft3", "%f*28.0", "%f/28.0"), {}),
 ]
 
 
@@ -151,7 +169,7 @@ def invariants(db, bases=None, shipped=False):
                     ci, seen_ci = db.GetCategoryInfo(dc), s.GetQuantity().GetCategoryInfo()
                     a = (ci.quantity_type, ci.default_unit, ci.default_value, ci.min_value, ci.max_value, ci.is_min_exclusive, ci.is_max_exclusive)
                     b = (seen_ci.quantity_type, seen_ci.default_unit, seen_ci.default_value, seen_ci.min_value, seen_ci.max_value, seen_ci.is_min_exclusive, seen_ci.is_max_exclusive)
-                    if a != b:
+                    if nn(a) != nn(b):
                         probs.append(("I4:Scalar(x,unit)-governed-by-another-definition-of-its-category", {"unit": u, "category": dc, "registered": list(a), "seen_by_the_scalar": list(b)}))
             except Exception as e:
                 probs.append(("I4:Scalar(x,unit)-raised:%s" % type(e).__name__, {"unit": u, "default_category": dc, "error": str(e)[:160]}))
@@ -215,6 +233,15 @@ def invariants(db, bases=None, shipped=False):
                     probs.append(("I4:Scalar(category,x,unit)-governed-by-another-definition-of-its-category", {"category": c, "unit": u}))
                 elif ci.min_value is None and ci.max_value is None and not s.IsValid():
                     probs.append(("I4:Scalar-without-limits-invalid", {"category": c, "unit": u}))
+                else:
+                    # ... and it is *that* unit: a value given in it converts with the functions the unit was registered with
+                    for w, qw in seen.items():
+                        if qw == qt:
+                            own = iu[w].frombase(iu[u].tobase(2.0))
+                            got = s.CreateCopy(2.0).GetValue(w)
+                            if not abs(got - own) <= 1e-12 * max(abs(own), 1e-300):
+                                probs.append(("I4:registered-unit-converts-with-other-factors-than-its-own", {"category": c, "unit": u, "to": w, "got": got, "by_its_own_functions": own}))
+                                break
             except Exception as e:
                 probs.append(("I4:Scalar(category,x,unit)-raised:%s" % type(e).__name__, {"category": c, "unit": u, "error": str(e)[:160]}))
     return probs, notes
@@ -235,7 +262,7 @@ def compare_with_model(db, m):
     for c, (qt, du, dv, valid, mn, mx, me, xe) in v["categories"].items():
         ci = db.GetCategoryInfo(c)
         got = (db.GetCategoryQuantityType(c), db.GetDefaultUnit(c), db.GetDefaultValue(c), None if ci.valid_units is None else list(ci.valid_units), ci.min_value, ci.max_value, bool(ci.is_min_exclusive), bool(ci.is_max_exclusive))
-        if got != (qt, du, dv, valid, mn, mx, me, xe):
+        if nn(got) != nn((qt, du, dv, valid, mn, mx, me, xe)):
             out.append(("model:category-fields-differ", {"category": c, "registry": list(got), "model": [qt, du, dv, valid, mn, mx, me, xe]}))
         if valid is not None:
             try:
@@ -295,7 +322,7 @@ class Runner:
 
 def random_call(r, m):
     qts = ["length", "volume", "time"]
-    units = {"length": ["m", "cm", "km", "ft"], "volume": ["m3", "Mcf", "MMm3", "L"], "time": ["s", "min"]}
+    units = {"length": ["m", "cm", "km", "ft"], "volume": ["m3", "Mcf", "MMm3", "L", "1000ft3"], "time": ["s", "min"]}
     legacy = {"Mcf": ["1000ft3", "k(ft3)"], "MMm3": ["M(m3)"]}
     cats = ["length", "depth", "vol", "time", "x", "y", "volume"]
     k = r.random()
@@ -334,7 +361,7 @@ def random_call(r, m):
     if r.random() < 0.3:
         kw["max_value"] = r.choice(lim)
     if r.random() < 0.3:
-        kw["default_value"] = r.choice(lim + [7.0])
+        kw["default_value"] = r.choice(lim + [7.0, NAN, float("inf")])
     if r.random() < 0.15:
         kw["is_min_exclusive"] = True
     if r.random() < 0.15:
@@ -383,7 +410,7 @@ def run(ctx):
         "distinct = (call kind, keywords, outcome, registry size)" % (depth, len(ALPHABET))
     )
     ctx.assumptions = [
-        "units are not registered under a legacy spelling, conversion formulas are well-formed, and default_category of a unit is only required to work when it names a category of the unit's type",
+        "conversion formulas are well-formed (a symbol that is a legacy spelling of another symbol is a legal symbol and is registered in the histories), and default_category of a unit is only required to work when it names a category of the unit's type",
         "a quantity type that never got a base unit is legal (counted, not alarmed); the shipped databases must have one everywhere",
         "the model fixes accept/reject, unit order, default unit/value, limits and explicitly given valid units - not captions, exception classes or the valid-unit fallback",
     ]
